@@ -225,6 +225,43 @@ def edits(frame, r, framing):
             yield ('mbaplen', v), bytes(b)
 
 
+def misspans(frame, framing, r):
+    """the check value recomputed by a sender over the wrong extent of the frame (unit id left out, start character included,
+    last data byte left out), alone or behind one or two bytes of line noise: no such frame carries a valid check"""
+    if framing == 'tcp':
+        return
+    if framing == 'rtu':
+        body = frame[:-2]
+        spans = [body[1:], body[:-1], body + b'\x00']
+        def mk(sp):
+            c = ADU.crc16(sp)
+            return body + bytes([c & 0xFF, c >> 8])
+        junkpool = [0x00, 0xFF, 0x55]
+    elif framing == 'binary':
+        body = frame[1:-3]
+        spans = [body[1:], body[:-1], b'{' + body, body + b'\x00']
+        def mk(sp):
+            c = ADU.crc16(sp)
+            return b'{' + body + bytes([c & 0xFF, c >> 8]) + b'}'
+        junkpool = [0x00, 0xFF, 0x55, 0x0A]
+    else:
+        body = bytes.fromhex(frame[1:-4].decode())
+        spans = [body[1:], body[:-1], b':' + body]
+        def mk(sp):
+            return b':' + (body + bytes([ADU.lrc(sp)])).hex().upper().encode() + b'\r\n'
+        junkpool = [0x00, 0x20, 0x30, 0x46]
+    for si, sp in enumerate(spans):
+        try:
+            bad = mk(sp)
+        except Exception:  # noqa
+            continue
+        if framing == 'binary' and any(b in (0x7B, 0x7D) for b in bad[1:-1]):
+            continue
+        for k in (0, 1, 2):
+            junk = bytes(r.choice(junkpool) for _ in range(k))
+            yield ('misspan', si, k), junk + bad
+
+
 def run(run):
     r = run.rng('main')
     run.rule = ('case = (framing, direction, valid frame, one corruption, context: alone / after a valid frame / before a valid frame); every delivery must be '
@@ -250,7 +287,8 @@ def run(run):
                     flips1(frame),
                     flips2(frame) if len(frame) <= (16 if run.thorough else 9) and fi < 2 else flips2(frame, r, 300 if not run.thorough else 3000),
                     bursts(frame, r, 200 if not run.thorough else 2000),
-                    edits(frame, r, framing))
+                    edits(frame, r, framing),
+                    misspans(frame, framing, r))
                 for label, bad in corr:
                     idx += 1
                     if not run.mine(idx):
